@@ -65,6 +65,121 @@ def _var_refs(world: World) -> list[ast.AST]:
     return uniq
 
 
+def _activation_generators(world, cfg, uses) -> set:
+    """Generator context managers (@contextmanager) of config.py that set / reset the variable."""
+    out = set()
+    for c in uses['set'] + uses['reset']:
+        fn = enclosing(c, (ast.FunctionDef,))
+        if fn is None:
+            continue
+        decos = {(world.qualify(module_of(d), d) or '') for d in fn.decorator_list}
+        if decos & {'contextlib.contextmanager'} and any(isinstance(n, ast.Yield) for n in ast.walk(fn)):
+            out.add(fn)
+    return out
+
+
+def _scoped_installed(enter: ast.FunctionDef, scopes: set):
+    names = {g.name for g in scopes}
+    for p in function_paths(enter):
+        if p.exit == 'raise':
+            continue
+        env = path_env(p)
+        for ev in p.events:
+            nodes = [ev[1]] if ev[0] in ('stmt', 'cond') else []
+            for n0 in nodes + ([p.node] if p.node is not None else []):
+                for n in ast.walk(n0):
+                    if isinstance(n, ast.Call) and isinstance(n.func, ast.Name) and n.func.id in names and n.args:
+                        return term(n.args[0], path_env(p, upto=ev[1]) if ev[0] == 'stmt' else env)
+    return None
+
+
+def _scoped_activation(ck, world, cfg, config_cls, enter: ast.FunctionDef, exit_: ast.FunctionDef, scopes: set, uses) -> None:
+    """K2/K3 for an activation written as a generator context manager: set, then try: yield finally: reset(token); __enter__
+    opens exactly one such scope per entry and keeps it on the instance, __exit__ closes exactly the one it kept."""
+    names = {g.name for g in scopes}
+    for g in scopes:
+        sets = [c for c in uses['set'] if enclosing(c, (ast.FunctionDef,)) is g]
+        resets = [c for c in uses['reset'] if enclosing(c, (ast.FunctionDef,)) is g]
+        ok_pair = len(sets) == 1 and len(resets) == 1
+        token = None
+        if ok_pair:
+            st = parent(sets[0])
+            if isinstance(st, ast.Assign) and len(st.targets) == 1 and isinstance(st.targets[0], ast.Name):
+                token = st.targets[0].id
+            ok_pair = token is not None and len(resets[0].args) == 1 and isinstance(resets[0].args[0], ast.Name) and resets[0].args[0].id == token
+        ck.expect('K3', ok_pair, g, f'{g.name}: exactly one set(), its token kept in a local and handed to the one reset()',
+                  f'{g.name}: the activation does not pair one set() with one reset(<its token>)', instance=f'{g.name} pairing')
+        if not ok_pair:
+            continue
+        # the reset sits in the finally of a try whose body holds the yield, and the set() comes before that try
+        guarded = False
+        for t in [n for n in ast.walk(g) if isinstance(n, ast.Try)]:
+            in_body = any(isinstance(n, ast.Yield) for b in t.body for n in ast.walk(b))
+            in_final = any(n is resets[0] for b in t.finalbody for n in ast.walk(b))
+            set_before = not any(n is sets[0] for n in ast.walk(t))
+            if in_body and in_final and set_before:
+                guarded = True
+        if not guarded:
+            # without a finally the reset still runs on every exit if the generator is always resumed normally, i.e. if
+            # Config.__exit__ never forwards the exception to the scope (scope.__exit__(None, None, None))
+            closes = [n for n in ast.walk(exit_) if isinstance(n, ast.Call) and isinstance(n.func, ast.Attribute) and n.func.attr == '__exit__']
+            never_forwarded = bool(closes) and all(len(n.args) == 3 and not n.keywords and all(isinstance(a, ast.Constant) and a.value is None for a in n.args) for n in closes)
+            after_yield = any(isinstance(st, ast.Expr) and isinstance(st.value, ast.Yield) or (isinstance(st, ast.Assign) and isinstance(st.value, ast.Yield)) for st in g.body) and any(
+                n is resets[0] for st in g.body for n in ast.walk(st)) and not any(isinstance(n, ast.Try) for n in ast.walk(g))
+            guarded = never_forwarded and after_yield
+        ck.expect('K3', guarded, resets[0], f'{g.name}: reset() runs in the finally of the try that holds the yield: the previous configuration is restored however the block is left',
+                  f'{g.name}: reset() is not in a finally around the yield: when the body of the with block raises, the generator is resumed with the exception at the yield, the reset is skipped '
+                  'and the configuration of the block stays active', instance=f'{g.name} restore on every exit')
+        nyield = sum(1 for n in ast.walk(g) if isinstance(n, (ast.Yield, ast.YieldFrom)))
+        ck.expect('K3', nyield == 1, g, f'{g.name} yields exactly once', f'{g.name} has {nyield} yields: it is not a single-scope context manager', instance=f'{g.name} single yield', nontrivial=False)
+        # who may open a scope: only Config.__enter__
+        callers = {enclosing(n, (ast.FunctionDef,)) for n in ast.walk(cfg.tree) if isinstance(n, ast.Call) and isinstance(n.func, ast.Name) and n.func.id == g.name}
+        ck.expect('K2', callers <= {enter}, g, f'{g.name} is only opened by Config.__enter__', f'{g.name} (which sets the active configuration) is also opened from {sorted(getattr(c, "name", "<module>") for c in callers - {enter})}',
+                  instance=f'{g.name} callers')
+    me = enter.args.args[0].arg
+    holder = None
+    for i, p in enumerate(function_paths(enter)):
+        if p.exit == 'raise':
+            continue
+        nodes = [ev[1] for ev in p.events if ev[0] in ('stmt', 'cond')] + ([p.node] if p.node is not None else [])
+        opens = [n for n0 in nodes for n in ast.walk(n0) if isinstance(n, ast.Call) and isinstance(n.func, ast.Name) and n.func.id in names]
+        enters = [n for n0 in nodes for n in ast.walk(n0) if isinstance(n, ast.Call) and isinstance(n.func, ast.Attribute) and n.func.attr == '__enter__']
+        kept = None
+        for n0 in nodes:
+            for n in ast.walk(n0):
+                # self.<attr>.append(scope) / self.<attr> = scope
+                if isinstance(n, ast.Call) and isinstance(n.func, ast.Attribute) and n.func.attr == 'append' and isinstance(n.func.value, ast.Attribute) and isinstance(n.func.value.value, ast.Name) and n.func.value.value.id == me:
+                    kept = (n.func.value.attr, 'stack')
+                if isinstance(n, ast.Assign) and isinstance(n.targets[0], ast.Attribute) and isinstance(n.targets[0].value, ast.Name) and n.targets[0].value.id == me and not isinstance(n.value, ast.Constant):
+                    kept = kept or (n.targets[0].attr, 'slot')
+        good = len(opens) == 1 and len(enters) == 1 and kept is not None
+        ck.expect('K3', good, enter, f'__enter__ opens one activation scope, enters it once and keeps it in self.{kept[0] if kept else "?"}',
+                  f'a path of __enter__ opens {len(opens)} activation scope(s), enters {len(enters)} and keeps {"none" if kept is None else "one"} on the instance (exactly one of each is required)', instance=f'path {i}')
+        if kept is not None:
+            holder = kept
+    if holder is not None:
+        cls_level = config_cls.own.get(holder[0])
+        ck.expect('K3', cls_level is None or isinstance(cls_level, ast.FunctionDef), config_cls.node, f'self.{holder[0]} is per instance', f'{holder[0]} is a class attribute: the open scopes are shared between instances and threads',
+                  instance='scope holder per instance')
+    me_x = exit_.args.args[0].arg
+    exit_params = {a.arg for a in exit_.args.args[1:]}
+    for i, p in enumerate(function_paths(exit_)):
+        nodes = [ev[1] for ev in p.events if ev[0] in ('stmt', 'cond')] + ([p.node] if p.node is not None else [])
+        exits = [n for n0 in nodes for n in ast.walk(n0) if isinstance(n, ast.Call) and isinstance(n.func, ast.Attribute) and n.func.attr == '__exit__']
+        takes = [n for n0 in nodes for n in ast.walk(n0) if isinstance(n, ast.Attribute) and isinstance(n.value, ast.Name) and n.value.id == me_x and holder is not None and n.attr == holder[0]]
+        if p.exit == 'raise' and not exits:
+            ck.bad('K3', exit_, '__exit__ can raise before closing the activation scope', instance=f'exit path {i}')
+            continue
+        ck.expect('K3', len(exits) == 1 and bool(takes), exit_, f'__exit__ closes exactly the scope kept in self.{holder[0] if holder else "?"}',
+                  f'a path of __exit__ closes {len(exits)} scope(s) (exactly the one kept by __enter__ is required)', instance=f'exit path {i}')
+        cond_names = {n.id for ev in p.events if ev[0] == 'cond' for n in ast.walk(ev[1]) if isinstance(n, ast.Name)}
+        ck.expect('K3', not (cond_names & exit_params), exit_, 'closing does not depend on the exception arguments', 'the closing path branches on the exception arguments', instance=f'exit path {i} unconditional', nontrivial=False)
+        if p.exit == 'return' and isinstance(p.node, ast.Return) and p.node.value is not None:
+            v = p.node.value
+            falsy = (isinstance(v, ast.Constant) and not v.value) or any(v is x or any(v is y for y in ast.walk(x)) for x in exits) or (isinstance(v, ast.Call) and v in exits)
+            ck.expect('K3', falsy, p.node, '__exit__ returns a falsy constant (or what the scope returns, which never swallows)', '__exit__ may return a truthy value and swallow the exception', instance=f'exit path {i} return')
+
+
 def run(ctx, ck) -> None:
     world, table = ctx.world, ctx.table
     ck.trust(
@@ -147,12 +262,20 @@ def run(ctx, ck) -> None:
     init = table.resolve(config_cls, '__init__')
     if enter is None or exit_ is None or not isinstance(enter.node, ast.FunctionDef) or not isinstance(exit_.node, ast.FunctionDef):
         raise AnalysisError('anchor vanished: Config.__enter__/__exit__')
+    scopes = _activation_generators(world, cfg, uses)
+    scoped = bool(scopes) and all(enclosing(c, (ast.FunctionDef,)) in scopes for c in uses['set'] + uses['reset'])
+    if scoped:
+        _scoped_activation(ck, world, cfg, config_cls, enter.node, exit_.node, scopes, uses)
     for call in uses['set']:
         fn = enclosing(call, (ast.FunctionDef,))
+        if scoped:
+            continue
         ck.expect('K2', fn is enter.node, call, 'set() inside Config.__enter__',
                   'the active configuration is set outside Config.__enter__ (no matching restore)')
     for call in uses['reset']:
         fn = enclosing(call, (ast.FunctionDef,))
+        if scoped:
+            continue
         ck.expect('K2', fn is exit_.node, call, 'reset() inside Config.__exit__',
                   'the active configuration is reset outside Config.__exit__')
     ck.floor('K2', len(uses['set']), 1, 'set sites')
@@ -180,7 +303,9 @@ def run(ctx, ck) -> None:
 
     token_attr = None
     installed = None
-    for i, path in enumerate(function_paths(enter.node)):
+    if scoped:
+        installed = _scoped_installed(enter.node, scopes)
+    for i, path in enumerate(function_paths(enter.node) if not scoped else []):
         if path.exit == 'raise':
             hits = calls_on_path(path, uses['set'])
             ck.expect('K3', not hits, enter.node, 'no set() before a raise', 'a path of __enter__ sets the variable and then raises: __exit__ will not run', instance=f'raise path {i}')
@@ -214,7 +339,7 @@ def run(ctx, ck) -> None:
         ck.bad('K3', config_cls.node, f'{token_attr} is also a class attribute')
     self_exit = exit_.node.args.args[0].arg
     exit_params = {a.arg for a in exit_.node.args.args[1:]}
-    for i, path in enumerate(function_paths(exit_.node)):
+    for i, path in enumerate(function_paths(exit_.node) if not scoped else []):
         hits = calls_on_path(path, uses['reset'])
         if path.exit == 'raise' and not hits:
             ck.bad('K3', exit_.node, '__exit__ can raise before restoring the configuration', instance=f'path {i}')
